@@ -77,6 +77,20 @@ fn decode_cases(ctx: &mut Ctx, idx: usize) {
         let l = canonical(&digest_of(&s, 0)).unwrap();
         decode_check(ctx, &l, &s, 0, "valid");
         decode_check(ctx, &(l + Scalar::one()), &s, 0, "lock-altered");
+        // structured alterations of the lock's encoding: one byte, two bytes under the same mask, two bytes swapped
+        {
+            let lb = l.to_bytes();
+            let (i, j) = (ctx.prng.gen_range(0..31usize), ctx.prng.gen_range(0..31usize));
+            let mask: u8 = 1 << ctx.prng.gen_range(0..8);
+            let mut alts: Vec<(&str, [u8; 32])> = vec![];
+            let mut x = lb; x[i] ^= mask; alts.push(("lock-one-byte", x));
+            if i != j { let mut x = lb; x[i] ^= mask; x[j] ^= mask; alts.push(("lock-two-bytes-same-mask", x)); }
+            { let mut x = lb; x[0] ^= 1; x[1] ^= 1; alts.push(("lock-two-bytes-same-mask", x)); }
+            if i != j && lb[i] != lb[j] { let mut x = lb; x.swap(i, j); alts.push(("lock-two-bytes-swapped", x)); }
+            for (what, x) in alts {
+                if let Some(l2) = Option::<Scalar>::from(Scalar::from_bytes(&x)) { if l2 != l { decode_check(ctx, &l2, &s, 0, what); } }
+            }
+        }
         decode_check(ctx, &l, &(s + Scalar::one()), 0, "secret-altered");
         decode_check(ctx, &l, &s, 1, "index-altered");
         decode_check(ctx, &Scalar::zero(), &s, 0, "lock-zero");
